@@ -19,7 +19,7 @@ RULE = ("cases = generated well-formed plotfiles x every single site of the corr
 ASSUMPTIONS = ["strict.py is the specification of 'inconsistent' (lenient token grammar, see "
                "DESIGN 3.2)", "pool shim M1 in-process"]
 REQUIRED_OBS = {"mutants_in_scope": 500, "set:operators_in_scope": 14, "pairs_in_scope": 20,
-                "coords_mutants_in_scope": 20, "cli_mutants": 30}
+                "coords_mutants_in_scope": 20, "cli_mutants": 30, "compensating_pairs": 10}
 TIMEOUT = {"quick": 400, "thorough": 2400}
 
 
@@ -167,7 +167,18 @@ def run_case(case, work, rec):
             continue
         if a["lv"] == b["lv"] and a.get("box") == b.get("box") and a.get("file") == b.get("file"):
             continue
-        if a["lv"] == b["lv"] and {a["op"], b["op"]} & {"insert", "remove", "fabhdr", "truncate", "extend", "delete_file"} \
-                and len({a["op"], b["op"]} & {"insert", "remove", "fabhdr", "truncate", "extend", "delete_file"}) == 2:
-            continue   # byte positions of the second edit would be stale
+        WHOLE, BYTES = {"truncate", "extend", "delete_file"}, {"insert", "remove", "fabhdr"}
+        if a["lv"] == b["lv"] and ((a["op"] in WHOLE and b["op"] in WHOLE | BYTES) or (b["op"] in WHOLE and a["op"] in WHOLE | BYTES)):
+            continue   # whole-file edits do not compose with other edits of the same level's files
         one([a, b], pair=True)
+    # length-compensating pairs: k bytes removed from one box and k inserted in a later box of the SAME
+    # binary file (the file length is unchanged, the boxes in between sit k bytes before their offsets)
+    k_, K_ = case.get("chunk", [0, 1])
+    multi = [(lv, fn, bl) for lv, L in enumerate(inf["levels"]) for fn, bl in sorted(L["files"].items()) if len(bl) >= 2]
+    for lv, fn, bl in multi[k_::K_][:6]:
+        i = rng.randrange(len(bl) - 1)
+        j = rng.randrange(i + 1, len(bl))
+        for nbytes in (8, 3):
+            if inf["levels"][lv]["boxes"][bl[i]]["plen"] > nbytes:
+                rec.count("compensating_pairs")
+                one([{"op": "remove", "lv": lv, "box": bl[i], "n": nbytes}, {"op": "insert", "lv": lv, "box": bl[j], "n": nbytes}], pair=True)
